@@ -866,6 +866,16 @@ for _n in dir(_unicodedata_mod):
 _unicodedata_facade.normalize = _sym_normalize  # type: ignore
 
 
+_B1: list = []
+
+
+def _b1_table() -> list:
+    if not _B1:
+        import stringprep
+        _B1.extend(c for c in range(0x80, 0x110000) if stringprep.in_table_b1(chr(c)))
+    return _B1
+
+
 def _make_prep_facade() -> Any:
     """pysasl.prep with saslprep() exact on ASCII symbolic text: ASCII is mapped to itself, and exactly the ASCII
     control characters (RFC 3454 C.2.1: U+0000-001F, U+007F) are prohibited (difftest compares this with the real
@@ -877,24 +887,35 @@ def _make_prep_facade() -> Any:
     def saslprep(source: Any, *a: Any, **k: Any) -> Any:
         if not is_sym(source):
             return real.saslprep(source, *a, **k)
+        if source.is_concrete():
+            return real.saslprep(source.lower_concrete(), *a, **k)
+        kept: list = []
         for c in source.items:
             if is_sym(c):
                 if bool(c > 0x7f):
-                    # outside ASCII the tables are not modelled: the documented contract is "a prepared string or
-                    # ValueError" - both are explored (the string is kept as it is, an approximation of the mapping
+                    if bool(SymBool(z3.Or(*[c.t == v for v in _b1_table()]))):
+                        continue          # RFC 3454 B.1: mapped to nothing (exact; the table is read from stringprep)
+                    # outside ASCII the other tables are not modelled: the documented contract is "a prepared string or
+                    # ValueError" - both are explored (the character is kept as it is, an approximation of the mapping
                     # step; a counterexample that depends on it fails its replay and is reported as inconclusive)
                     if cur().flip('saslprep_prohibits_non_ascii'):
                         raise ValueError(source)
+                    kept.append(c)
                     continue
                 if bool(c <= 0x1f) or bool(c == 0x7f):
                     raise ValueError(source)
+                kept.append(c)
             elif c > 0x7f:
-                if source.is_concrete():
-                    return real.saslprep(source.lower_concrete(), *a, **k)
-                raise Unsupported('saslprep of partly symbolic non-ASCII text')
+                if c in _b1_table():
+                    continue
+                kept.append(c)       # approximation as above, for a concrete character next to symbolic ones
             elif c <= 0x1f or c == 0x7f:
                 raise ValueError(source)
-        return source
+            else:
+                kept.append(c)
+        if len(kept) == len(source.items):
+            return source
+        return SymStr(kept)
     fac.saslprep = saslprep  # type: ignore
     return fac
 
